@@ -371,7 +371,7 @@ let run_eng_line (line : string) (spec : string) (ad : string) (flags : string) 
               match step_of st with
               | SOp o -> let (s', r) = step !s o in
                 s := s';
-                (match r with Panic -> poisoned := true | _ -> ());
+                (match r, o with Panic, OSave -> () | Panic, _ -> poisoned := true | _ -> ());
                 outcome_str r
               | SQuery q -> answer_str (ask ptab !s q)
               | SWlog -> if !s.e_wlog = [] then "-" else String.concat "+" (List.map event_str !s.e_wlog)
@@ -784,6 +784,178 @@ let pred_c13 steps impl =
       !ok end
   | None -> false
 
+(* C19: decisions of a (g on subjects, g2 on objects) model against the
+   specification in which each definition is its own relation, computed from
+   the implementation's dump of the stored grouping rules and the (static) p
+   rules of the adapter spec. A deviation is the known finding "all role
+   definitions share one role manager" (D7). *)
+let pred_c19 ad steps impl =
+  match impl_results impl with
+  | Some outs ->
+    let sts = Array.of_list (steps_list steps) and os = Array.of_list outs in
+    let n = Array.length sts in
+    if n <> Array.length os then "0" else begin
+      let prules = match String.split_on_char '@' ad with
+        | ["M"; l; _] -> List.filter_map (fun r -> match r with "p" :: "p" :: f -> Some f | _ -> None) (parse_rules_out l)
+        | _ -> [] in
+      let res = ref "1" in
+      (* blocks: requests ... then ?ga:g *)
+      let i = ref 0 in
+      while !i < n do
+        if sts.(!i) = "?ga:g" then begin
+          let grules = parse_rules_out os.(!i) in
+          let edges key d = List.filter_map (fun r -> match r with
+              | _ :: k :: a :: b :: rest when k = key && a <> b && (match rest, d with [], None -> true | [x], Some y -> x = y | _ -> false) -> Some (a, b)
+              | _ -> None) grules in
+          let reach key d u v =
+            u = v ||
+            (let es = edges key d in
+             let rec go seen front =
+               let nxt = uniq (List.concat_map (fun x -> List.filter_map (fun (a, b) -> if a = x then Some b else None) es) front) in
+               let nw = List.filter (fun x -> not (List.mem x seen)) nxt in
+               if nw = [] then seen else go (seen @ nw) nw in
+             List.mem v (go [] [u])) in
+          let j = ref (!i - 1) in
+          while !j >= 0 && String.length sts.(!j) > 3 && String.sub sts.(!j) 0 3 = "?e:" do
+            let vals = List.map (fun v -> String.sub v 2 (String.length v - 2))
+                (String.split_on_char ',' (String.sub sts.(!j) 3 (String.length sts.(!j) - 3))) in
+            let exp = match vals with
+              | [s; o; a] -> Some (List.exists (fun r -> match r with
+                  | [ps; po; pa] -> pa = a && reach "g" None s ps && reach "g2" None o po | _ -> false) prules)
+              | [s; d; o; a] -> Some (List.exists (fun r -> match r with
+                  | [ps; pd; po; pa] -> pa = a && pd = d && reach "g" (Some d) s ps && reach "g2" (Some d) o po | _ -> false) prules)
+              | _ -> None in
+            (match exp with
+             | Some b -> if os.(!j) <> b01 b then res := "K:shared_role_manager"
+             | None -> ());
+            decr j
+          done
+        end;
+        incr i
+      done;
+      !res end
+  | None -> "0"
+
+(* C14: the extracted Gallina predicate c14_pred (delivery count, payload,
+   replica = primary after every call) on the implementation's trace *)
+let outcome_of_str = function
+  | "1" -> Ok true | "0" -> Ok false | "P" -> Panic
+  | "ER" -> Err ERequest | "EP" -> Err EPolicy | "EV" -> Err EEvalc | "EM" -> Err EModel
+  | "EB" -> Err ERbac | "EA" -> Err EAdapter | "EI" -> Err EIo
+  | s -> failwith ("outcome " ^ s)
+let rules_of_out o = List.map (List.map dec) (parse_rules_out o)
+let rule_of_out o = if o = "!" then [] else List.map dec (String.split_on_char ',' o)
+let event_of_str (s : string) : event =
+  match String.split_on_char '^' s with
+  | ["EA"; a; b; r] -> EvAdd (dec a, dec b, rule_of_out r)
+  | ["EAM"; a; b; r] -> EvAddMany (dec a, dec b, rules_of_out r)
+  | ["ER"; a; b; r] -> EvRemove (dec a, dec b, rule_of_out r)
+  | ["ERM"; a; b; r] -> EvRemoveMany (dec a, dec b, rules_of_out r)
+  | ["ERF"; a; b; r] -> EvRemoveFiltered (dec a, dec b, rules_of_out r)
+  | ["ES"; r] -> EvSave (rules_of_out r)
+  | ["EC"] -> EvClear
+  | _ -> failwith ("event " ^ s)
+let events_of_out o = if o = "-" then [] else List.map event_of_str (String.split_on_char '+' o)
+let pred_c14 line spec ad flags steps impl =
+  match impl_results impl with
+  | Some outs ->
+    let sts = Array.of_list (steps_list steps) and os = Array.of_list outs in
+    let n = Array.length sts in
+    if n <> Array.length os then false else begin
+      let d = modeldef_of_spec spec in
+      match new_enforcer d (adapter_of_spec ad) true with
+      | (s0, Ok _) ->
+        let init = store_of s0.e_model in
+        let tr = ref [] and prev_log = ref 0 and ok = ref true in
+        (* calls made while notifications are off are, by design, not replicated: they must deliver
+           nothing, and the replica comparison ends at the first of them that changes the policy *)
+        let enabled = ref true and stopped = ref false in
+        Array.iteri (fun i st ->
+            if not (is_query st) && !stopped then begin
+              (if i + 3 < n && sts.(i + 3) = "?wl" then begin
+                  let evs = events_of_out os.(i + 3) in
+                  (match step_of st with
+                   | SOp (OEnableAutoNotify b) -> enabled := b
+                   | _ -> ());
+                  if not !enabled && List.length evs <> !prev_log then ok := false;
+                  prev_log := List.length evs end)
+            end else
+            if not (is_query st) then begin
+              (match step_of st with
+               | SOp (OEnableAutoNotify b) -> enabled := b
+               | SOp (OEnableAutoSave _ | OEnableAutoBuild _ | OEnableEnforce _) -> ()
+               | SOp _ -> if not !enabled then stopped := true
+               | _ -> ());
+              if !stopped then begin
+                (if i + 3 < n && sts.(i + 3) = "?wl" then begin
+                    let evs = events_of_out os.(i + 3) in
+                    if List.length evs <> !prev_log then ok := false end)
+              end else
+              if i + 3 < n && sts.(i + 1) = "?ga:p" && sts.(i + 2) = "?ga:g" && sts.(i + 3) = "?wl" then begin
+                match step_of st with
+                | SOp o ->
+                  let evs = events_of_out os.(i + 3) in
+                  let delta = List.filteri (fun j _ -> j >= !prev_log) evs in
+                  if List.length evs < !prev_log then ok := false;
+                  prev_log := List.length evs;
+                  tr := { o_op = o; o_res = outcome_of_str os.(i); o_events = delta;
+                          o_p = rules_of_out os.(i + 1); o_g = rules_of_out os.(i + 2) } :: !tr
+                | _ -> ()
+              end else ok := false
+            end) sts;
+        !ok && c14_pred true init (List.rev !tr)
+      | _ -> false end
+  | None -> false
+
+(* C12: extracted c12_pred on the implementation's dumps: full load, filtered
+   load, flag; plus the save guard (a filtered enforcer cannot overwrite the store) *)
+let pred_c12 steps impl =
+  match impl_results impl with
+  | Some outs ->
+    let sts = Array.of_list (steps_list steps) and os = Array.of_list outs in
+    if Array.length sts <> Array.length os then "0"
+    else if Array.length sts = 9 && String.length sts.(3) > 3 && String.sub sts.(3) 0 3 = "LF:" then begin
+      match String.split_on_char ':' sts.(3) with
+      | [_; fp; fg] ->
+        if os.(3) = "P" then "-"     (* filter index beyond a line of the file adapter: known class D22, judged elsewhere *)
+        else begin
+          let strip l = List.map (fun r -> match r with _ :: _ :: f -> f | _ -> []) l in
+          ignore strip;
+          let ok1 = c12_pred (rule_of_out fp) (rule_of_out fg) (rules_of_out os.(0)) (rules_of_out os.(1))
+              (rules_of_out os.(4)) (rules_of_out os.(5)) (os.(6) = "1") in
+          let ok2 = if os.(6) = "1" then os.(7) = "P" && os.(8) = cat_dumps os.(0) os.(1) else os.(7) <> "P" in
+          b01 (ok1 && ok2)
+        end
+      | _ -> "0"
+    end
+    else if Array.length sts = 4 && sts.(1) = "?if" then
+      (* constructor on a pre-filtered adapter: no load, save refused *)
+      b01 (os.(0) = "-" && os.(1) = "1" && os.(2) = "P")
+    else "-"
+  | None -> "0"
+
+(* C04: the extracted ideal ordered-set replay c04_check on the implementation's
+   results and store dumps after every management call *)
+let pred_c04 line spec ad flags steps impl =
+  match impl_results impl with
+  | Some outs ->
+    let sts = Array.of_list (steps_list steps) and os = Array.of_list outs in
+    let n = Array.length sts in
+    if n <> Array.length os then false else begin
+      let d = modeldef_of_spec spec in
+      match new_enforcer d (adapter_of_spec ad) false with
+      | (s0, Ok _) ->
+        let tr = ref [] in
+        Array.iteri (fun i st ->
+            if not (is_query st) && i + 2 < n && sts.(i + 1) = "?ga:p" && sts.(i + 2) = "?ga:g" then
+              match step_of st with
+              | SOp o when ideal_step (ideal_of s0.e_model) o <> None ->
+                tr := (((o, outcome_of_str os.(i)), rules_of_out os.(i + 1)), rules_of_out os.(i + 2)) :: !tr
+              | _ -> ()) sts;
+        c04_check (ideal_of s0.e_model) (List.rev !tr)
+      | _ -> false end
+  | None -> false
+
 let pred_eng line spec ad flags steps impl =
   (* a constructor that failed (e.g. a scripted adapter failing the initial load) leaves nothing to judge *)
   if impl_results impl = None && String.length impl >= 5 && String.sub impl 0 5 = "new=E" then "-" else
@@ -797,7 +969,26 @@ let pred_eng line spec ad flags steps impl =
      | Some outs when not (List.exists (fun o -> o = "P" || o = "X" || o = "PANIC" || o = "HANG") outs) ->
        b01 (pred_c01 line spec ad flags steps impl)
      | _ -> "0")
+  | "C04" -> b01 (try pred_c04 line spec ad flags steps impl with Failure _ -> false)
   | "C07" -> b01 (pred_c07 steps impl)
+  | "C12" -> pred_c12 steps impl
+  | "C14" -> b01 (try pred_c14 line spec ad flags steps impl with Failure _ -> false)
+  | "C19" ->
+    (* extracted Gallina: decision = per-definition semantics (c19_pred); a deviation is the known
+       finding exactly when the extracted classifier known_shared_rm_case holds for (state, request) *)
+    (match trace_of line spec ad flags steps, impl_results impl with
+     | Some (ptab, tr), Some outs when List.length outs = List.length tr ->
+       let res = ref "1" in
+       List.iter2 (fun (s, k, _) o ->
+           match k with
+           | SQuery (QEnforce rv) ->
+             if not (c19_pred ptab s rv (outcome_of_str o)) then
+               (if known_shared_rm_case ptab s rv then (if !res = "1" then res := "K:shared_role_manager") else res := "0")
+           | _ -> ()) tr outs;
+       (* the independent hand computation from the dumps must agree on "deviates or not" *)
+       let hand = pred_c19 ad steps impl in
+       if !res = "1" && hand <> "1" then "0" else !res
+     | _ -> "0")
   | "C13" -> b01 (pred_c13 steps impl)
   | "C08" -> b01 (pred_c08 spec steps impl)
   | "C01" -> b01 (pred_c01 line spec ad flags steps impl)
